@@ -45,9 +45,9 @@ MODEL_REQ = {'pworker': 'worker'}
 
 # ----------------------------------------------------------------------------- TLC helpers
 
-def _cfg(nf, fixes, plans='Plans_all', late='FALSE', inv=(), prop=None, step='FALSE', leakpop='FALSE'):
-    s = ('SPECIFICATION Spec\nCONSTANTS\n  NF = %d\n  Fixes <- %s\n  PlanSet <- %s\n  LateAfter = %s\n  StepSend = %s\n  LeakPop = %s\n'
-         % (nf, fixes, plans, late, step, leakpop))
+def _cfg(nf, fixes, plans='Plans_all', late='FALSE', inv=(), prop=None, step='FALSE', leakpop='FALSE', con='FALSE', cutnone='FALSE'):
+    s = ('SPECIFICATION Spec\nCONSTANTS\n  NF = %d\n  Fixes <- %s\n  PlanSet <- %s\n  LateAfter = %s\n  StepSend = %s\n  LeakPop = %s\n  CloseOnNone = %s\n  CutIsNone = %s\n'
+         % (nf, fixes, plans, late, step, leakpop, con, cutnone))
     for i in inv:
         s += 'INVARIANT %s\n' % i
     if prop:
@@ -204,6 +204,16 @@ def c11_concrete(plan, lens, rng):
     return dict(req=t, step=step, cut=cut, mode=mode, split=False)
 
 
+def c11_con(faults, i):
+    """Which scenarios run against a server configured with close_on_none=True (run_server / --close_on_none): the
+    header-phase cuts of the request types that are redundant there (the server does not know the type yet), and every
+    fifth other scenario."""
+    f = faults[0]
+    if f['step'] in ('connect', 'midhdr') and len(faults) == 1:
+        return f['req'] in ('pworker', 'ctxworker', 'ctxdelete', 'uctxworker')
+    return i % 5 == 0
+
+
 def c11_signature(rec, clauses):
     f = rec['faults_full'][-1] if rec['faults_full'] else {'req': '-', 'step': '-', 'mode': '-'}
     o = rec['obs']
@@ -213,7 +223,8 @@ def c11_signature(rec, clauses):
         effect = 'blocked'
     else:
         effect = 'disturbed'
-    return 'C11|req=%s|step=%s%s|mode=%s|effect=%s' % (f['req'], f['step'], '+split' if f.get('split') else '', f['mode'], effect)
+    return 'C11|req=%s|step=%s%s|mode=%s|effect=%s%s' % (f['req'], f['step'], '+split' if f.get('split') else '', f['mode'], effect,
+                                                         '|close_on_none' if rec.get('con') else '')
 
 
 def c11_summary(rec):
@@ -231,7 +242,7 @@ def run_c11(tier, replay):
 
     if replay is not None:
         streams, pos, lens = record(logdir)
-        rec = R.scenario_c11(dict(id='replay', faults=replay['replay']['faults'], streams=streams, pos=pos, logdir=logdir))
+        rec = R.scenario_c11(dict(id='replay', faults=replay['replay']['faults'], con=replay['replay'].get('con', False), streams=streams, pos=pos, logdir=logdir))
         fails, _ = tlc.judge('ServerJudge', [rec], name='replay')
         print('replayed:', json.dumps({'scn': rec['scn'], 'obs': rec['obs'], 'notes': rec['notes']}))
         for _, clause in fails:
@@ -255,6 +266,11 @@ def run_c11(tier, replay):
                                              must_complete=False, timeout=600) for w in wit})
     design.start('rejs', lambda: {fx: tlc.run('ServerMC', cfg_text=_cfg(1, fx, inv=invs, prop='Live_Serves'), workers=1,
                                               name='rej' + fx, must_complete=False, timeout=600) for fx in fixsets})
+    # the server configuration close_on_none=True: same properties; the mutant that takes a cut header for a None request is rejected
+    design.start('con', lambda: tlc.run('ServerMC', cfg_text=_cfg(1, 'Fix_all', inv=invs, prop='Live_Serves', con='TRUE'), workers=1,
+                                        name='con', timeout=600))
+    design.start('cutnone', lambda: tlc.run('ServerMC', cfg_text=_cfg(1, 'Fix_all', inv=invs, prop='Live_Serves', con='TRUE', cutnone='TRUE'), workers=1,
+                                            name='rejcutnone', must_complete=False, timeout=600))
     design.start('leakpop', lambda: tlc.run('ServerMC', cfg_text=_cfg(1, 'Fix_all', inv=invs, prop='Live_Serves', leakpop='TRUE'), workers=1,
                                             name='rejleakpop', must_complete=False, timeout=600))
 
@@ -287,7 +303,7 @@ def run_c11(tier, replay):
     box = {}
 
     def mk_tasks(lst, off):
-        return [dict(id='s%d' % (off + i), faults=f, streams=streams, pos=pos, logdir=logdir) for i, f in enumerate(lst)]
+        return [dict(id='s%d' % (off + i), faults=f, con=c11_con(f, off + i), streams=streams, pos=pos, logdir=logdir) for i, f in enumerate(lst)]
 
     def replay_all():
         try:
@@ -350,6 +366,12 @@ def run_c11(tier, replay):
         rejected[fx] = rp.error
         if fx == 'Fix_none':
             cex = [l for l in rp.trace if l.startswith(('State', '/\\ spc', '/\\ cpc', '/\\ dopen'))][:40]
+    ev.add_tlc('NF=1, server configured with close_on_none=True (proposed algorithm)', dres['con'])
+    if dres['con'].error:
+        raise MachineryError('Server.tla with CloseOnNone violates its properties: %s' % dres['con'].error)
+    if not (dres['cutnone'].error or '').startswith('invariant:'):
+        raise MachineryError('the mutant algorithm CutIsNone is not rejected by the model checker (%s)' % dres['cutnone'].error)
+    rejected['CutIsNone with close_on_none=True (mutant: a connection cut inside the header counts as a None request)'] = dres['cutnone'].error
     if dres['leakpop'].error != 'invariant:Inv_Others':
         raise MachineryError('the mutant algorithm LeakPop is not rejected by the model checker (%s)' % dres['leakpop'].error)
     rejected['LeakPop (mutant: pops the entry of a REFUSED duplicate when its reply cannot be sent)'] = dres['leakpop'].error
@@ -389,9 +411,11 @@ def run_c11(tier, replay):
                     x['obs']['srv_alive'], [y['got'] for y in x['obs']['fresh']],
                     [(y['kind'], y['got'], 'err=' + y['err']) for y in x['obs']['others']],
                     ('; server log: ' + x['notes']['server_error']) if x['notes'].get('server_error') else ''))
-        violations.append(Violation('C11', sig, what, {'kind': 'C11', 'faults': x['faults_full']}))
+        if x.get('con'):
+            what += ' [server configured with close_on_none=True]'
+        violations.append(Violation('C11', sig, what, {'kind': 'C11', 'faults': x['faults_full'], 'con': bool(x.get('con'))}))
 
-    violations = confirm(ev, 'C11', violations, lambda rp, i: dict(id=i, faults=rp['faults'], streams=streams, pos=pos, logdir=logdir),
+    violations = confirm(ev, 'C11', violations, lambda rp, i: dict(id=i, faults=rp['faults'], con=rp.get('con', False), streams=streams, pos=pos, logdir=logdir),
                          'scenario_c11', c11_signature, logdir)
     unconf = set(u['signature'] for u in ev.cov.get('unconfirmed_rejections', []))
 
@@ -438,6 +462,7 @@ def run_c11(tier, replay):
     ev.assumptions += ['client writes are atomic up to the client\'s next read (TCP buffers them); payloads are opaque to the model',
                        'FIN = close() of a socket without unread data, RST = SO_LINGER 0 + close(); loopback only',
                        'the healthy party of every scenario: a persistent worker, a one-shot worker in the middle of its target, and a context (the one faulty worker-in-context and duplicate-create requests name) with a worker in it; afterwards each must answer with its own work and a NEW worker in that context must be accepted',
+                       'both server configurations are exercised: close_on_none=False (spawn_server default) and True (run_server / --close_on_none); no scenario sends a None request',
                        'time-outs in the proposed algorithm only fire for clients that are gone (a well-behaved client connects the control channel in time)',
                        'sequences of >= 2 faulty clients are sampled (seeded), not exhaustive; model NF<=2 exhaustive (NF=3 core plans in the thorough tier)',
                        'a rejected execution whose signature is not a listed finding is re-run alone twice and reported only if TLC rejects a re-run too (hang bounds are wall-clock: 12 parallel replays + TLC can exceed them on a loaded machine)']
@@ -449,10 +474,11 @@ def run_c11(tier, replay):
 REAL_PATIENCE = 4      # busy workers a context helper waits out (1 s each) before the server's 5 s are over
 
 
-def _ctx_cfg(ids, maxlen, maxw, hist='FALSE', pop='TRUE', dup='TRUE', inv=(), spec=True, patience=1, hk='TRUE', profile='free'):
+def _ctx_cfg(ids, maxlen, maxw, hist='FALSE', pop='TRUE', dup='TRUE', inv=(), spec=True, patience=1, hk='TRUE', profile='free',
+             alias='FALSE', shutfirst='FALSE'):
     s = ('SPECIFICATION Spec\n' if spec else 'INIT Init\nNEXT Next\n')
-    s += ('CONSTANTS\n  Ids <- %s\n  MaxLen = %d\n  MaxW = %d\n  Hist = %s\n  PopOnDelete = %s\n  DupCheck = %s\n  Patience = %d\n  HandlerKills = %s\n  Profile = "%s"\n'
-          % (ids, maxlen, maxw, hist, pop, dup, patience, hk, profile))
+    s += ('CONSTANTS\n  Ids <- %s\n  MaxLen = %d\n  MaxW = %d\n  Hist = %s\n  PopOnDelete = %s\n  DupCheck = %s\n  Patience = %d\n  HandlerKills = %s\n  Profile = "%s"\n  AliasDefaults = %s\n  ShutdownFirst = %s\n'
+          % (ids, maxlen, maxw, hist, pop, dup, patience, hk, profile, alias, shutfirst))
     for i in inv:
         s += 'INVARIANT %s\n' % i
     return s + 'CHECK_DEADLOCK FALSE\n'
@@ -467,7 +493,7 @@ def c18_features(hist, reps):
     f = set()
     dup_ids, deleted, started_in = set(), set(), {}
     registered = set()
-    busy, busy_ctx = set(), {}
+    busy, busy_ctx, kw = set(), {}, set()
     prev = None
     for n, (q, a) in enumerate(zip(hist, reps)):
         op = q['op']
@@ -523,6 +549,14 @@ def c18_features(hist, reps):
         elif op == 'busy':
             f.add('busy')
             busy.add(q['w'])
+        elif op == 'callk':
+            if a.startswith('v:'):
+                f.add('callk')
+                kw.add(q['w'])
+        elif op == 'rstart':
+            f.add('rstart-unknown' if q['k'] == 'F' else 'rstart-known')
+        if op == 'call' and a.startswith('v:') and q['w'] in kw:
+            f.add('plain-call-after-keyword')
         if op == 'delete' and q['k'] == 'T':
             nb = len([w for w in busy if busy_ctx.get(w) == q['id']])
             if nb:
@@ -553,7 +587,8 @@ def c18_select(paths, k, rng):
         chosen.append(pool[best])
         count.update(feats[best])
     # request shapes the client API never produces by itself are always played, several times
-    for must, times in (('first-delete-unknown', 3), ('delete-unknown-after-dup', 3), ('start-in-deleted', 2), ('delete-with-busy', 2)):
+    for must, times in (('first-delete-unknown', 3), ('delete-unknown-after-dup', 3), ('start-in-deleted', 2), ('delete-with-busy', 2),
+                        ('plain-call-after-keyword', 4), ('rstart-unknown', 4), ('rstart-known', 1)):
         for i, fs in enumerate(feats):
             if count[must] >= times:
                 break
@@ -611,7 +646,7 @@ def run_c18(tier, replay):
     # 0. the design (concurrently): refinement of the dictionary model over every history; record operators
     #    on every short history; witnesses; mutant algorithms rejected
     wit = ['W_NoDuplicate', 'W_NoOrphan', 'W_NoReuse', 'W_NoUnknownStart', 'W_NoUnknownDelete', 'W_NoDeleteWithWorkers',
-           'W_NoCallAfterDup', 'W_NoTwoContexts', 'W_NoForcedDelete', 'W_NoBusyRegular']
+           'W_NoCallAfterDup', 'W_NoTwoContexts', 'W_NoForcedDelete', 'W_NoBusyRegular', 'W_NoPlainAfterKeyword', 'W_NoResetUnknown']
     design = Jobs()
     big = ('Ids3', 8, 3) if tier == 'thorough' else ('Ids3', 7, 2)
     design.start('mc', lambda: tlc.run('ServerCtxMC', cfg_text=_ctx_cfg(*big, inv=C18_REF), workers=8, name='ctxmc', timeout=3000))
@@ -619,12 +654,14 @@ def run_c18(tier, replay):
     # forced delete path (two busy workers against an abstract patience of 1) with the record operators
     design.start('hist6', lambda: tlc.run('ServerCtxMC', cfg_text=_ctx_cfg('Ids1', 7, 3, hist='TRUE', inv=C18_REF + C18_REC), workers=2,
                                           name='ctxhist6', timeout=1500))
-    design.start('wits', lambda: {w: tlc.run('ServerCtxMC', cfg_text=_ctx_cfg('Ids2', 6, 2, inv=(w,)), workers=1, name=w,
+    design.start('wits', lambda: {w: tlc.run('ServerCtxMC', cfg_text=_ctx_cfg('Ids2', 6, 2, hist='TRUE', inv=(w,)), workers=1, name=w,
                                              must_complete=False, timeout=600) for w in wit})
     design.start('muts', lambda: {m: tlc.run('ServerCtxMC', cfg_text=_ctx_cfg(ids_, len_, 2, hist='TRUE', inv=C18_REC, **kw), workers=1,
                                              name='mut' + m, must_complete=False, timeout=600)
                                   for m, ids_, len_, kw in (('no_pop', 'Ids2', 5, {'pop': 'FALSE'}), ('no_dupcheck', 'Ids2', 5, {'dup': 'FALSE'}),
-                                                            ('handler_kills_nothing', 'Ids1', 6, {'hk': 'FALSE'}))})
+                                                            ('handler_kills_nothing', 'Ids1', 6, {'hk': 'FALSE'}),
+                                                            ('keyword_sticks_to_later_inputs', 'Ids1', 5, {'alias': 'TRUE'}),
+                                                            ('shutdown_before_close_of_reset_client', 'Ids1', 3, {'shutfirst': 'TRUE'}))})
 
     # 1. TLC generates the histories (simulation: length 8, 3 ids, 3 workers; the record operators are
     #    evaluated on every simulated state); the tap records the bytes of a worker-in-context request
@@ -769,9 +806,9 @@ def run_c18(tier, replay):
 
 # ----------------------------------------------------------------------------- C12
 
-def _stop_cfg(maxkids, racers='Racers_all', ctxterm='TRUE', inv=(), prop=None, dupterm=None, pkill=None, clearfirst='FALSE', narrow='FALSE', states='States_all'):
-    s = ('SPECIFICATION Spec\nCONSTANTS\n  MaxKids = %d\n  KidStates <- %s\n  Racers <- %s\n  CtxTerm = %s\n  DupTerm = %s\n  ParentKill = %s\n  ClearFirst = %s\n  NarrowExcept = %s\n'
-         % (maxkids, states, racers, ctxterm, dupterm or ctxterm, pkill or dupterm or ctxterm, clearfirst, narrow))
+def _stop_cfg(maxkids, racers='Racers_all', ctxterm='TRUE', inv=(), prop=None, dupterm=None, pkill=None, clearfirst='FALSE', narrow='FALSE', states='States_all', noack='FALSE'):
+    s = ('SPECIFICATION Spec\nCONSTANTS\n  MaxKids = %d\n  KidStates <- %s\n  Racers <- %s\n  CtxTerm = %s\n  DupTerm = %s\n  ParentKill = %s\n  ClearFirst = %s\n  NarrowExcept = %s\n  NoAckWait = %s\n'
+         % (maxkids, states, racers, ctxterm, dupterm or ctxterm, pkill or dupterm or ctxterm, clearfirst, narrow, noack))
     for i in inv:
         s += 'INVARIANT %s\n' % i
     if prop:
@@ -908,6 +945,8 @@ def run_c12(tier, replay):
     design.start('prefix', lambda: {v: tlc.run('ServerStopMC', cfg_text=_stop_cfg(2, 'Racers_all', v[0], inv=C12_INV, prop='Live_Reaped', dupterm=v[1], pkill=v[2]),
                                                workers=1, name='stopprefix%s%s%s' % v, must_complete=False, timeout=600)
                                     for v in (('FALSE', 'FALSE', 'FALSE'), ('FALSE', 'TRUE', 'TRUE'), ('TRUE', 'FALSE', 'FALSE'))})
+    design.start('noack', lambda: tlc.run('ServerStopMC', cfg_text=_stop_cfg(1, 'Racers_all', 'TRUE', inv=C12_INV, prop='Live_Reaped', noack='TRUE'),
+                                          workers=1, name='stopnoack', must_complete=False, timeout=600))
     design.start('narrow', lambda: tlc.run('ServerStopMC', cfg_text=_stop_cfg(2, 'Racers_all', 'TRUE', inv=C12_INV, prop='Live_Reaped', narrow='TRUE'),
                                            workers=1, name='stopnarrow', must_complete=False, timeout=600))
     design.start('clearfirst', lambda: tlc.run('ServerStopMC', cfg_text=_stop_cfg(2, 'Racers_all', 'TRUE', inv=C12_INV, prop='Live_Reaped', clearfirst='TRUE'),
@@ -975,6 +1014,9 @@ def run_c12(tier, replay):
     if not (dres['clearfirst'].error or '').startswith(('invariant:', 'temporal')):
         raise MachineryError('the mutant algorithm ClearFirst (finally clears `children` before reaping) is not rejected by the model checker')
     ev.cov['prefix_models_rejected']['ClearFirst=TRUE (mutant)'] = dres['clearfirst'].error
+    if not (dres['noack'].error or '').startswith(('invariant:', 'temporal')):
+        raise MachineryError('the mutant algorithm NoAckWait (half-started backend does not wait for the acknowledgement) is not rejected by the model checker')
+    ev.cov['prefix_models_rejected']['NoAckWait=TRUE (mutant)'] = dres['noack'].error
     if not (dres['narrow'].error or '').startswith(('invariant:', 'temporal')):
         raise MachineryError('the mutant algorithm NarrowExcept (shutdown(SHUT_RD) failure not caught) is not rejected by the model checker')
     ev.cov['prefix_models_rejected']['NarrowExcept=TRUE (mutant)'] = dres['narrow'].error
